@@ -324,11 +324,11 @@ fn process_dir(
 fn do_find(args: &[&str], deps: &dyn Dependencies) -> Result<i32, Box<dyn Error>> {
     let paths_and_matcher = parse_args(args)?;
     if paths_and_matcher.config.help_requested {
-        print_help();
+        print_help()?;
         return Ok(0);
     }
     if paths_and_matcher.config.version_requested {
-        print_version();
+        print_version()?;
         return Ok(0);
     }
 
@@ -353,8 +353,10 @@ fn do_find(args: &[&str], deps: &dyn Dependencies) -> Result<i32, Box<dyn Error>
     Ok(ret)
 }
 
-fn print_help() {
-    println!(
+fn print_help() -> std::io::Result<()> {
+    // Not `println!`: it panics when standard output cannot be written.
+    writeln!(
+        stdout(),
         r"Usage: find [path...] [expression]
 
 If no path is supplied then the current working directory is used by default.
@@ -397,11 +399,11 @@ Early alpha implementation. Currently the only expressions supported are
     a non-standard extension that sorts directory contents by name before
     processing them. Less efficient, but allows for deterministic output.
 "
-    );
+    )
 }
 
-fn print_version() {
-    println!("find (Rust) {}", env!("CARGO_PKG_VERSION"));
+fn print_version() -> std::io::Result<()> {
+    writeln!(stdout(), "find (Rust) {}", env!("CARGO_PKG_VERSION"))
 }
 
 /// Does all the work for find.
